@@ -411,7 +411,7 @@ def section8():
     out.insert(len(out) - 2, '**%d changes in eight rounds** (the eighth, after the theorems of the last session, a partial one: as many properties as the remaining time allowed; each round told the sub-agents what the earlier rounds had changed and asked for another function, mechanism, clause, input class or argument form). '
                '%d were caught by the check as it stood; %d were missed at first and are caught since the generator / history grammar / argument forms were widened (column 5); '
                'for %d of the seventh round the widening was made from the sub-agent\'s report before the check was first run against the change (marked). '
-               'After the last change to a generator all of them were run again (`tools_regress.py`): every one is reported. '
+               'After the last change to a generator in the seventh round all of them were run again (`tools_regress.py`): every one is reported; after the eighth round widened the C04 and C12 argument forms (no random draw added, streams unchanged) the fourteen C04 / C12 changes were run again: all reported (`seeded/REGRESSION.log`). '
                'What the misses had in common: the check was sound but its inputs were narrower than the property\'s quantifier (symmetric joint limits, equal centres of gravity, dense random wrenches, positional arguments only, one call per object, no NaN-safe comparison).\n' %
                (n_all, n_all - n_str - n_pre, n_str, n_pre))
     for d in sorted(glob.glob(os.path.join(V, 'seeded', '*', 'meta.json'))):
